@@ -198,7 +198,7 @@ var clauseKeywords = map[string]bool{
 	"calluse": true, "bind": true, "free": true, "nosafety": true, "let": true, "invariant": true,
 	"func": true, "extern": true, "sort": true, "const": true, "fun": true, "pred": true, "lemma": true,
 	"axiom": true, "type": true, "method": true, "returns": true, "params": true, "variant": true,
-	"induction": true, "assert": true, "assume": true, "unfold": true, "use": true, "set": true,
+	"induction": true, "assert": true, "assume": true, "unfold": true, "use": true, "useif": true, "set": true,
 	"body": true, "havoc": true, "captured": true, "defines": true,
 }
 
@@ -571,9 +571,9 @@ func (p *parser) parseHint() *Hint {
 	h.Label, h.Props = name, props
 	from := p.peek().pos
 	switch t.s {
-	case "assert", "assume", "unfold", "use":
+	case "assert", "assume", "unfold", "use", "useif":
 		h.E = p.parseExpr()
-	case "set":
+	case "set", "let":
 		h.Name = p.ident()
 		p.expectOp(":=")
 		h.E = p.parseExpr()
@@ -589,7 +589,7 @@ func (p *parser) parseHint() *Hint {
 }
 
 func isHintKw(s string) bool {
-	return s == "assert" || s == "assume" || s == "unfold" || s == "use" || s == "set" || s == "havoc"
+	return s == "assert" || s == "assume" || s == "unfold" || s == "use" || s == "useif" || s == "set" || s == "havoc" || s == "let"
 }
 
 func (p *parser) parseHintBlock() []*Hint {
@@ -814,6 +814,12 @@ func (p *parser) parseFuncSpecBody(fs *FuncSpec) {
 				case t.s == "body":
 					p.next()
 					ls.BodyHints = append(ls.BodyHints, p.parseHintBlock()...)
+				case t.s == "end":
+					p.next()
+					ls.EndHints = append(ls.EndHints, p.parseHintBlock()...)
+				case t.s == "pre":
+					p.next()
+					ls.PreHints = append(ls.PreHints, p.parseHintBlock()...)
 				case isHintKw(t.s):
 					ls.Hints = append(ls.Hints, p.parseHint())
 				default:
